@@ -13,7 +13,8 @@ from symx.shim import SymNP, ConcNP
 META = dict(
     functions=["estimators.mem2.mem2_directional_distribution", "mem2_newton_solver (NaN-guess, approximate and "
                "non-convergence exits)", "mem2_newton / _mem2_newton_point / mem2 (dispatch)", "estimators.mem._mem / "
-               "numba_mem / mem", "estimators.estimate.estimate_directional_distribution", "estimators.utils."
+               "numba_mem / mem", "mem2_scipy_root_finder (scipy.optimize.root = nondeterministic stub)", "initial_value",
+               "estimators.estimate.estimate_directional_distribution", "estimators.utils."
                "get_direction_increment", "FrequencySpectrum.as_frequency_direction_spectrum"],
     bounds=dict(quick="N in {4,6} uniform directions; MEM2 distribution for ARBITRARY real Lagrange multipliers (4 "
                       "symbols) on every argmin path of the overflow shift; MEM closed form for symbolic moments "
@@ -106,6 +107,56 @@ def case_mem2_solver_exits(ctx, N, exit_kind):
     ctx.check(ctx.Or(is0, is1), "D-M2.final-iterate",
               info="every exit returns the MEM2 distribution of an iterate (hence >= 0 and normalised by D-M2)")
     ctx.reach("D-M2.final-iterate")
+
+
+def case_mem2_scipy(ctx, N, nf=2, nan_at=None):
+    """mem2_scipy_root_finder with scipy.optimize.root as a nondeterministic environment: for each frequency it
+    returns ARBITRARY finite multipliers and an ARBITRARY success flag / status (Levenberg-Marquardt may stop on its
+    evaluation limit). Whatever it reports, every frequency with finite moments gets a non-negative distribution that
+    integrates to one; a frequency with a NaN moment gets zeros; nothing raises."""
+    import types
+    import ocean_science_utilities.wavespectra.estimators.utils as U
+    M2, M1 = _m2(ctx)
+    ctx.patch(U, "np", SymNP() if ctx.mode == "sym" else ConcNP())
+    th, tw, inc = _grid(ctx, N)
+    mom = ctx.reals("m", (4, 1, nf))
+    if nan_at is not None:
+        mom[2, 0, nan_at] = float("nan")
+    lams = ctx.reals("lam", (nf, 4))
+    succ = [ctx.integer(f"succ{i}") for i in range(nf)]
+    for x in succ:
+        ctx.assume(ctx.And(x >= 0, x <= 1))
+    calls = []
+
+    def root(fun, x0, args=(), method=None, **kw):
+        i = len(calls)
+        calls.append(method)
+        return types.SimpleNamespace(x=lams[i].copy(), success=(succ[i] == 1), status=(2 if i == 0 else 5),
+                                     message="", fun=None)
+    ctx.patch(M2, "scipy", types.SimpleNamespace(optimize=types.SimpleNamespace(root=root)))
+    rad = ctx.const(th) if ctx.mode == "sym" else th
+
+    class _P:
+        def update(self, n):
+            pass
+    out = ctx.noraise("D-SCIPY.noraise", M2.mem2_scipy_root_finder, rad, mom[0], mom[1], mom[2], mom[3], _P())
+    ctx.reach("D-SCIPY")
+    for i in range(nf):
+        if nan_at == i:
+            for j in range(N):
+                ctx.check(ctx.eq(out[0, i, j], 0), "D-SCIPY.nan", info="NaN moments: all-zero distribution")
+            continue
+        tot = 0
+        for j in range(N):
+            ctx.check(ctx.le(0, out[0, i, j]), "D-SCIPY.nonneg", info=dict(freq=i, j=j))
+            tot = tot + out[0, i, j] * inc[j]
+        if ctx.mode == "sym":
+            atoms = [v[0] for k, v in ctx._uf_terms.items() if k[0] == "exp"]
+            ctx.check(ctx.eq(tot, 1), "D-SCIPY.unit", abstract=[SR(a) for a in atoms],
+                      lemmas=[SR(a) > 0 for a in atoms],
+                      info=dict(freq=i, what="integrates to one whether or not the root finder reports success"))
+        else:
+            ctx.check(ctx.close(tot, 1, rtol=1e-9), "D-SCIPY.unit", info=dict(freq=i))
 
 
 def case_mem_closed_form(ctx, N):
@@ -324,6 +375,10 @@ def cases(tier):
         add("case_mem2_solver_exits", "mem2_exit_general_N4", N=4, exit_kind="general",
             opts=dict(weight=200, case_timeout_s=1500))
     add("case_mem_closed_form", "mem_closed_N4", N=4, opts=dict(weight=50))
+    add("case_mem2_scipy", "mem2_scipy_N4", N=4, opts=dict(weight=40))
+    add("case_mem2_scipy", "mem2_scipy_N4_nan", N=4, nf=2, nan_at=0, opts=dict(weight=40))
+    if not q:
+        add("case_mem2_scipy", "mem2_scipy_N6_nf3", N=6, nf=3, opts=dict(weight=100))
     add("case_mem_pole", "mem_pole_N4", N=4, opts=dict(weight=50))
     for shape in ((3,), (2, 3), (3, 1, 2)):
         for method in ("mem", "mem2"):
